@@ -45,6 +45,9 @@ type LiveFound struct {
 
 const liveBase = 1000
 
+// LiveAll as maxStates of Liveness: extend every explored state.
+const LiveAll = -1 << 31
+
 type flight struct {
 	raw *interfaces.ConsensusRawMessage
 	to  int
@@ -381,23 +384,30 @@ func (e *Engine) soupOfNodes(nodes map[int]*LNode) []Sent {
 }
 
 // Liveness runs the timed extension from the first maxStates explored states (BFS order).
+// Liveness extends explored states. maxStates > 0: the maxStates shallowest states; maxStates < 0: -maxStates states
+// spread evenly (fixed stride, deterministic) over ALL explored states in (depth, key) order, so that deep states
+// are included; maxStates == math.MinInt32: every explored state.
 func (e *Engine) Liveness(maxStates int, strategies []string, allPhases bool) *LiveResult {
 	type gd struct {
 		g GKey
 		d int32
+		q int32
 	}
 	var states []gd
 	for g, ed := range e.visited {
-		states = append(states, gd{g, ed.depth})
+		states = append(states, gd{g, ed.depth, ed.seq})
 	}
-	sort.Slice(states, func(i, j int) bool {
-		if states[i].d != states[j].d {
-			return states[i].d < states[j].d
-		}
-		return fmt.Sprint(states[i].g) < fmt.Sprint(states[j].g)
-	})
-	if len(states) > maxStates {
+	sort.Slice(states, func(i, j int) bool { return states[i].q < states[j].q }) // discovery order = (depth, deterministic merge order)
+	if maxStates > 0 && len(states) > maxStates {
 		states = states[:maxStates]
+	} else if maxStates < 0 && maxStates != LiveAll && len(states) > -maxStates {
+		k := -maxStates
+		var sel []gd
+		for i := 0; i < k; i++ {
+			sel = append(sel, states[i*len(states)/k])
+		}
+		sel[k-1] = states[len(states)-1]
+		states = sel
 	}
 	res := &LiveResult{States: len(states)}
 	nh := len(e.Honest)
